@@ -12,46 +12,62 @@ Section SessionProofs.
   Variable compress : cstate -> list Z -> list Z * cstate.
   Variable decompress : dstate -> list Z -> option (list Z * dstate).
   Variable sync : cstate -> dstate -> Prop.
-  Hypothesis round_trip : forall cs ds data, sync cs ds ->
+  Variable lzo : list Z -> list Z.
+  Variable unlzo : list Z -> option (list Z).
+  (* zlib: only non-empty input (deflate of nothing is Z_BUF_ERROR); LZO: stateless *)
+  Hypothesis round_trip : forall cs ds data, data <> [] -> sync cs ds ->
     exists ds', decompress ds (fst (compress cs data)) = Some (data, ds') /\ sync (snd (compress cs data)) ds'.
+  Hypothesis lzo_round_trip : forall data, data <> [] -> unlzo (lzo data) = Some data.
 
   Definition sync3 (cs : cstates cstate) (ds : dstates dstate) : Prop :=
-    let '(cz, cr, cu) := cs in let '(dz, dr, du) := ds in sync cz dz /\ sync cr dr /\ sync cu du.
+    let '(cz, cr) := cs in let '(dz, dr) := ds in sync cz dz /\ sync cr dr.
+
+  (* a compressed rectangle never has an empty payload: the specification's decoder rejects it *)
+  Lemma dec_rect_nil enc bypp cmode w h : 1 <= bypp -> 1 <= w -> 1 <= h ->
+    (enc = 6 \/ enc = 9 \/ enc = 16)%Z -> dec_rect enc bypp cmode w h [] = None.
+  Proof.
+    intros Hb Hw Hh E. destruct bypp as [|b]; [lia|]. destruct w as [|w']; [lia|]. destruct h as [|h']; [lia|].
+    destruct E as [->|[->| ->]]; try reflexivity.
+  Qed.
 
   Definition crop_of (scr : list (list Z)) (r : wrect) := crop scr (w_x r) (w_y r) (w_w r) (w_h r).
 
   Lemma unwire_wire_rect bypp cmode scr cs ds r :
-    rect_ok bypp cmode scr r -> sync3 cs ds ->
-    exists ds', unwire_rect dstate decompress bypp cmode ds (fst (wire_rect cstate compress cs r)) = Some (crop_of scr r, ds') /\
-                sync3 (snd (wire_rect cstate compress cs r)) ds' /\ geom (fst (wire_rect cstate compress cs r)) = geom r.
+    rect_ok bypp cmode scr r -> 1 <= bypp -> 1 <= w_w r -> 1 <= w_h r -> sync3 cs ds ->
+    exists ds', unwire_rect dstate decompress unlzo bypp cmode ds (fst (wire_rect cstate compress lzo cs r)) = Some (crop_of scr r, ds') /\
+                sync3 (snd (wire_rect cstate compress lzo cs r)) ds' /\ geom (fst (wire_rect cstate compress lzo cs r)) = geom r.
   Proof.
-    intros OK S. destruct cs as [[cz cr] cu]. destruct ds as [[dz dr] du]. destruct S as (S1 & S2 & S3).
-    unfold rect_ok in OK. unfold wire_rect, unwire_rect.
+    intros OK HB HW HH S. destruct cs as [cz cr]. destruct ds as [dz dr]. destruct S as (S1 & S2).
+    unfold rect_ok in OK.
+    assert (NE : (w_enc r = 6 \/ w_enc r = 9 \/ w_enc r = 16)%Z -> w_payload r <> []).
+    { intros E P. rewrite P in OK. rewrite dec_rect_nil in OK by auto. discriminate. }
+    unfold wire_rect, unwire_rect.
     destruct (w_enc r =? 6)%Z eqn:E6; [|destruct (w_enc r =? 16)%Z eqn:E16; [|destruct (w_enc r =? 9)%Z eqn:E9]];
       cbn [fst snd w_enc w_payload w_w w_h w_x w_y].
-    - rewrite E6. destruct (round_trip cz dz (w_payload r) S1) as (d' & D & S').
+    - rewrite E6. apply Z.eqb_eq in E6. destruct (round_trip cz dz (w_payload r) (NE (or_introl E6)) S1) as (d' & D & S').
       rewrite D, OK. eexists. split; [reflexivity|]. split; [cbn; auto|reflexivity].
-    - rewrite E6, E16. destruct (round_trip cr dr (w_payload r) S2) as (d' & D & S').
+    - rewrite E6, E16. apply Z.eqb_eq in E16.
+      destruct (round_trip cr dr (w_payload r) (NE (or_intror (or_intror E16))) S2) as (d' & D & S').
       rewrite D, OK. eexists. split; [reflexivity|]. split; [cbn; auto|reflexivity].
-    - rewrite E6, E16, E9. destruct (round_trip cu du (w_payload r) S3) as (d' & D & S').
-      rewrite D, OK. eexists. split; [reflexivity|]. split; [cbn; auto|reflexivity].
+    - rewrite E6, E16, E9. apply Z.eqb_eq in E9. rewrite (lzo_round_trip _ (NE (or_intror (or_introl E9)))), OK.
+      eexists. split; [reflexivity|]. split; [cbn; auto|reflexivity].
     - rewrite E6, E16, E9, OK. eexists. split; [reflexivity|]. split; [cbn; auto|reflexivity].
   Qed.
 
   Lemma unwire_wire_rects bypp cmode scr : forall rects cs ds,
-    Forall (rect_ok bypp cmode scr) rects -> sync3 cs ds ->
-    exists ds', unwire_rects dstate decompress bypp cmode ds (fst (wire_rects cstate compress cs rects)) =
+    Forall (rect_ok bypp cmode scr) rects -> 1 <= bypp -> Forall (fun r => 1 <= w_w r /\ 1 <= w_h r) rects -> sync3 cs ds ->
+    exists ds', unwire_rects dstate decompress unlzo bypp cmode ds (fst (wire_rects cstate compress lzo cs rects)) =
                   Some (map (crop_of scr) rects, ds') /\
-                sync3 (snd (wire_rects cstate compress cs rects)) ds' /\
-                map geom (fst (wire_rects cstate compress cs rects)) = map geom rects.
+                sync3 (snd (wire_rects cstate compress lzo cs rects)) ds' /\
+                map geom (fst (wire_rects cstate compress lzo cs rects)) = map geom rects.
   Proof.
-    induction rects as [|r t IH]; intros cs ds F S.
+    induction rects as [|r t IH]; intros cs ds F HB FG S.
     - exists ds. cbn. auto.
-    - apply Forall_cons_iff in F. destruct F as [Fr Ft].
-      destruct (unwire_wire_rect bypp cmode scr cs ds r Fr S) as (d1 & D1 & S1 & G1).
-      cbn [wire_rects]. destruct (wire_rect cstate compress cs r) as [r' cs1] eqn:W. cbn [fst snd] in *.
-      destruct (IH cs1 d1 Ft S1) as (d2 & D2 & S2 & G2).
-      destruct (wire_rects cstate compress cs1 t) as [t' cs2] eqn:WT. cbn [fst snd] in *.
+    - apply Forall_cons_iff in F. destruct F as [Fr Ft]. apply Forall_cons_iff in FG. destruct FG as [[Gw Gh] FGt].
+      destruct (unwire_wire_rect bypp cmode scr cs ds r Fr HB Gw Gh S) as (d1 & D1 & S1 & G1).
+      cbn [wire_rects]. destruct (wire_rect cstate compress lzo cs r) as [r' cs1] eqn:W. cbn [fst snd] in *.
+      destruct (IH cs1 d1 Ft HB FGt S1) as (d2 & D2 & S2 & G2).
+      destruct (wire_rects cstate compress lzo cs1 t) as [t' cs2] eqn:WT. cbn [fst snd] in *.
       exists d2. cbn [unwire_rects map]. rewrite D1, D2. split; [reflexivity|]. split; [assumption|].
       rewrite G1, G2. reflexivity.
   Qed.
@@ -62,7 +78,7 @@ Section SessionProofs.
     | [] => True
     | SetParams p' :: t => session_ok p' t
     | Update x y w h scr :: t =>
-      (exists W H, wf_grid W H scr /\ grid_pix_ok (p_bypp p) scr /\ x + w <= W /\ y + h <= H /\ 1 <= w /\ 1 <= h /\
+      (exists W H, wf_grid W H scr /\ 1 <= p_bypp p /\ grid_pix_ok (p_bypp p) scr /\ x + w <= W /\ y + h <= H /\ 1 <= w /\ 1 <= h /\
                    (Z.of_nat w < 65536)%Z /\ (Z.of_nat h < 65536)%Z /\ 1 <= p_mw p <= 255 /\ 1 <= p_mh p <= 255 /\
                    (p_enc p = c_encZRLE -> p_b15 p = false /\ Forall (Forall (cpix_ok (p_bypp p) (p_cmode p))) scr))
       /\ session_ok p t
@@ -105,20 +121,25 @@ Section SessionProofs.
 
   Theorem session_roundtrip : forall steps p cs ds wire,
     session_ok p steps -> sync3 cs ds ->
-    run_session cstate compress p cs steps = Ok wire ->
-    exists grids, client_session dstate decompress p ds steps wire = Some grids /\ session_pixels steps wire grids.
+    run_session cstate compress lzo p cs steps = Ok wire ->
+    exists grids, client_session dstate decompress unlzo p ds steps wire = Some grids /\ session_pixels steps wire grids.
   Proof.
     induction steps as [|st t IH]; intros p cs ds wire OK S E.
     - simpl in E. inversion E; subst. exists []. simpl. auto.
     - destruct st as [p'|x y w h scr].
       + cbn [run_session client_session session_pixels session_ok] in *. eauto.
       + cbn [run_session] in E. cbn [session_ok] in OK.
-        destruct OK as ((W & H & WF & PIX & HX & HY & HW & HH & BW & BH & MW & MH & ZR) & OKT).
+        destruct OK as ((W & H & WF & HB & PIX & HX & HY & HW & HH & BW & BH & MW & MH & ZR) & OKT).
         destruct (send_rect p x y w h scr) as [rects| |] eqn:SR; try discriminate.
         destruct (send_rect_ok W H scr p x y w h rects WF PIX HX HY HW HH BW BH MW MH ZR SR) as (ROK & INS & PART).
-        destruct (unwire_wire_rects (p_bypp p) (p_cmode p) scr rects cs ds ROK S) as (ds' & UW & S' & GE).
-        destruct (wire_rects cstate compress cs rects) as [wr cs'] eqn:WR. cbn [fst snd] in *.
-        destruct (run_session cstate compress p cs' t) as [rest| |] eqn:RS; try discriminate.
+        assert (GEOM : Forall (fun r => 1 <= w_w r /\ 1 <= w_h r) rects).
+        { apply Forall_forall. intros r IR. destruct PART as (PI & _ & _).
+          assert (IG : In (w_x r - x, w_y r - y, w_w r, w_h r) (rel_geoms x y rects)).
+          { unfold rel_geoms. apply in_map_iff. exists r. auto. }
+          specialize (PI _ _ _ _ IG). lia. }
+        destruct (unwire_wire_rects (p_bypp p) (p_cmode p) scr rects cs ds ROK HB GEOM S) as (ds' & UW & S' & GE).
+        destruct (wire_rects cstate compress lzo cs rects) as [wr cs'] eqn:WR. cbn [fst snd] in *.
+        destruct (run_session cstate compress lzo p cs' t) as [rest| |] eqn:RS; try discriminate.
         inversion E; subst wire. clear E.
         destruct (IH p cs' ds' rest OKT S' RS) as (gt & CT & PT).
         exists (map (crop_of scr) rects :: gt). split.
